@@ -3,14 +3,18 @@ package lit
 import (
 	"fmt"
 	"go/ast"
+	goscanner "go/scanner"
 	"go/token"
 	"go/types"
+	htmltemplate "html/template"
 	"os"
 	"path/filepath"
 	"reflect"
 	"strings"
 	"sync"
 	"testing"
+	textscanner "text/scanner"
+	texttemplate "text/template"
 
 	"golang.org/x/tools/go/packages"
 	"pgregory.net/rapid"
@@ -23,6 +27,7 @@ import (
 	lcodec "vt/internal/fx/left/codec"
 	mvmodel "vt/internal/fx/multivendor/model"
 	rcodec "vt/internal/fx/right/codec"
+	yamlv3 "vt/internal/fx/yaml.v3"
 	"vt/internal/script"
 )
 
@@ -39,10 +44,20 @@ var fxPaths = map[string]string{
 	"left":  "vt/internal/fx/left/codec",
 	"right": "vt/internal/fx/right/codec",
 	"mv":    "vt/internal/fx/multivendor/model",
+	"yaml":  "vt/internal/fx/yaml.v3",
+	// pairs of standard-library packages with the same last path element (loaded through fixture stdmix); type expressions only
+	"ttpl":  "text/template",
+	"htpl":  "html/template",
+	"tscan": "text/scanner",
+	"gscan": "go/scanner",
 }
 
+// fxStd: fixture keys that are standard-library packages (never a target package, never a source of values)
+var fxStd = map[string]bool{"ttpl": true, "htpl": true, "tscan": true, "gscan": true}
+
 // fxRep: one type per fixture package (for blank declarations that keep harness-side imports used)
-var fxRep = map[string]string{"alpha": "Int", "beta": "Kind", "gamma": "Level", "delta": "Mixed", "left": "Opt", "right": "Opt", "mv": "Item"}
+var fxRep = map[string]string{"alpha": "Int", "beta": "Kind", "gamma": "Level", "delta": "Mixed", "left": "Opt", "right": "Opt", "mv": "Item",
+	"yaml": "Node", "ttpl": "Template", "htpl": "Template", "tscan": "Position", "gscan": "ErrorList"}
 
 // fxImportedBy: the fixture packages that (transitively) import the key; a type that mentions one of them cannot be written
 // inside the key package (import cycle)
@@ -65,7 +80,8 @@ func ownTargetPossible(own string, mentioned func(pkg string) bool) bool {
 }
 
 // harness-side import aliases used to spell types in probe files
-var fxAlias = map[string]string{"alpha": "hx_alpha", "beta": "hx_beta", "gamma": "hx_gamma", "delta": "hx_delta", "left": "hx_left", "right": "hx_right", "mv": "hx_mv"}
+var fxAlias = map[string]string{"alpha": "hx_alpha", "beta": "hx_beta", "gamma": "hx_gamma", "delta": "hx_delta", "left": "hx_left", "right": "hx_right", "mv": "hx_mv",
+	"yaml": "hx_yaml", "ttpl": "hx_ttpl", "htpl": "hx_htpl", "tscan": "hx_tscan", "gscan": "hx_gscan"}
 
 type fixtures struct {
 	fset  *token.FileSet
@@ -306,12 +322,21 @@ var registry = func() []regEntry {
 		{nm("alpha", "Byte"), rtOf[alpha.Byte]()}, {nm("alpha", "Strings"), rtOf[alpha.Strings]()}, {nm("alpha", "IntMap"), rtOf[alpha.IntMap]()}, {nm("alpha", "Arr"), rtOf[alpha.Arr]()},
 		{nm("alpha", "Matrix"), rtOf[alpha.Matrix]()}, {nm("alpha", "Point"), rtOf[alpha.Point]()}, {nm("alpha", "Same"), rtOf[alpha.Same]()}, {nm("alpha", "Named"), rtOf[alpha.Named]()},
 		{nm("alpha", "Embedded"), rtOf[alpha.Embedded]()}, {nm("alpha", "Wide"), rtOf[alpha.Wide]()}, {nm("alpha", "PointRef"), rtOf[alpha.PointRef]()}, {nm("alpha", "Größe"), rtOf[alpha.Größe]()},
+		{nm("alpha", "Stage"), rtOf[alpha.Stage]()}, {nm("alpha", "Errno"), rtOf[alpha.Errno]()}, {nm("alpha", "Digits"), rtOf[alpha.Digits]()}, {nm("alpha", "Ratio"), rtOf[alpha.Ratio]()},
+		{nm("alpha", "Flag"), rtOf[alpha.Flag]()}, {nm("alpha", "Label"), rtOf[alpha.Label]()},
 		{nm("beta", "Kind"), rtOf[betav1.Kind]()}, {nm("beta", "Same"), rtOf[betav1.Same]()}, {nm("beta", "Spec"), rtOf[betav1.Spec]()},
 		{nm("gamma", "Same"), rtOf[gammav1.Same]()}, {nm("gamma", "Level"), rtOf[gammav1.Level]()}, {nm("gamma", "Status"), rtOf[gammav1.Status]()},
 		{nm("delta", "Mixed"), rtOf[delta.Mixed]()}, {nm("delta", "Either"), rtOf[delta.Either]()},
 		{nm("left", "Opt"), rtOf[lcodec.Opt]()}, {nm("left", "Mode"), rtOf[lcodec.Mode]()}, {nm("right", "Opt"), rtOf[rcodec.Opt]()}, {nm("right", "Level"), rtOf[rcodec.Level]()},
 		{nm("mv", "Item"), rtOf[mvmodel.Item]()}, {nm("mv", "Code"), rtOf[mvmodel.Code]()},
+		{nm("yaml", "Node"), rtOf[yamlv3.Node]()}, {nm("yaml", "Kind"), rtOf[yamlv3.Kind]()},
+		{nm("ttpl", "Template"), rtOf[texttemplate.Template]()}, {nm("htpl", "Template"), rtOf[htmltemplate.Template]()}, {nm("htpl", "HTML"), rtOf[htmltemplate.HTML]()},
+		{nm("tscan", "Position"), rtOf[textscanner.Position]()}, {nm("tscan", "Scanner"), rtOf[textscanner.Scanner]()},
+		{nm("gscan", "ErrorList"), rtOf[goscanner.ErrorList]()}, {nm("gscan", "Error"), rtOf[goscanner.Error]()},
 		// instantiations
+		{inst("alpha", "Box", nm("yaml", "Node")), rtOf[alpha.Box[yamlv3.Node]]()},
+		{inst("alpha", "Pair", nm("yaml", "Kind"), nm("htpl", "Template")), rtOf[alpha.Pair[yamlv3.Kind, htmltemplate.Template]]()},
+		{inst("alpha", "Pair", bs("string"), nm("ttpl", "Template")), rtOf[alpha.Pair[string, texttemplate.Template]]()},
 		{inst("alpha", "Box", bs("int")), rtOf[alpha.Box[int]]()},
 		{inst("alpha", "Box", bs("string")), rtOf[alpha.Box[string]]()},
 		{inst("alpha", "Box", nm("alpha", "Point")), rtOf[alpha.Box[alpha.Point]]()},
@@ -397,9 +422,15 @@ func (n *tn) toReflect() (rt reflect.Type, ok bool) {
 
 var scalarBasics = []string{"bool", "int", "int8", "int16", "int32", "int64", "uint", "uint8", "uint16", "uint32", "uint64", "uintptr", "float32", "float64", "string", "byte", "rune"}
 var namedScalars = []*tn{nm("alpha", "Bool"), nm("alpha", "Int"), nm("alpha", "Int8"), nm("alpha", "Int64"), nm("alpha", "Uint16"), nm("alpha", "Uintptr"), nm("alpha", "Float32"), nm("alpha", "Größe"),
+	nm("alpha", "Stage"), nm("alpha", "Errno"), nm("alpha", "Digits"), nm("alpha", "Ratio"), nm("alpha", "Flag"), nm("alpha", "Label"),
 	nm("alpha", "Float64"), nm("alpha", "String"), nm("alpha", "Rune"), nm("alpha", "Byte"), nm("beta", "Kind"), nm("gamma", "Level"), nm("left", "Mode"), nm("right", "Level"), nm("mv", "Code")}
 var namedComposite = []*tn{nm("alpha", "Wide"), nm("alpha", "Strings"), nm("alpha", "IntMap"), nm("alpha", "Arr"), nm("alpha", "Point"), nm("alpha", "Same"), nm("alpha", "Named"), nm("alpha", "Embedded"),
 	nm("beta", "Same"), nm("beta", "Spec"), nm("gamma", "Same"), nm("gamma", "Status"), nm("alpha", "Matrix"), nm("delta", "Mixed"), nm("delta", "Either"), nm("left", "Opt"), nm("right", "Opt"), nm("mv", "Item")}
+
+// typeOnlyNamed: named types used in type expressions only (C11), never as values: a package whose last path element has a dot,
+// and standard-library packages that compete for one import name
+var typeOnlyNamed = []*tn{nm("yaml", "Node"), nm("yaml", "Kind"), nm("yaml", "Node"), nm("ttpl", "Template"), nm("htpl", "Template"), nm("htpl", "HTML"), nm("tscan", "Position"), nm("tscan", "Scanner"),
+	nm("gscan", "ErrorList"), nm("gscan", "Error")}
 
 var generics = []struct {
 	pkg, name string
@@ -424,6 +455,8 @@ func genInst(t *rapid.T, levels int) *tn {
 			n.Args = append(n.Args, genComparableArg(t))
 		case levels > 1 && rapid.IntRange(0, 2).Draw(t, "nestinst") == 0:
 			n.Args = append(n.Args, genInst(t, levels-1))
+		case rapid.IntRange(0, 5).Draw(t, "argtypeonly") == 0:
+			n.Args = append(n.Args, rapid.SampledFrom(typeOnlyNamed).Draw(t, "argto"))
 		case rapid.Bool().Draw(t, "argnamed"):
 			n.Args = append(n.Args, rapid.SampledFrom(append(append([]*tn{}, namedScalars...), namedComposite...)).Draw(t, "argn"))
 		default:
@@ -463,6 +496,9 @@ var structTags = []string{`json:"a"`, `json:"a,omitempty" yaml:"b"`, `name:"x.y"
 // genType draws a closed type expression.
 func genType(t *rapid.T, depth int) *tn {
 	if depth <= 0 {
+		if rapid.IntRange(0, 7).Draw(t, "leaftypeonly") == 0 {
+			return rapid.SampledFrom(typeOnlyNamed).Draw(t, "tonamed")
+		}
 		switch rapid.IntRange(0, 5).Draw(t, "leaf") {
 		case 0, 1:
 			return bs(rapid.SampledFrom(scalarBasics).Draw(t, "basic"))
